@@ -111,5 +111,21 @@ func processShape(newShape, currentShape []int) error {
 		}
 	}
 
+	// Every dim size has to be positive by now, and together they have to account for exactly
+	// the elements of the tensor. Dividing instead of multiplying cannot overflow.
+	remainingSize := totalSize
+
+	for _, dimSize := range newShape {
+		if dimSize < 1 || remainingSize%dimSize != 0 {
+			return ops.ErrDimension("new shape does not match the number of elements of the tensor")
+		}
+
+		remainingSize /= dimSize
+	}
+
+	if remainingSize != 1 {
+		return ops.ErrDimension("new shape does not match the number of elements of the tensor")
+	}
+
 	return nil
 }
